@@ -208,3 +208,11 @@ Proof.
   - intro f. rewrite !index_of_spec, U. split; reflexivity.
   - intro t. rewrite !concat_units, U. split; reflexivity.
 Qed.
+
+(* Hash is consistent with Eq (the HashMap key contract), across representations, and conversely *)
+Lemma hash_eq_consistent_lemma : forall r1 r2, eq r1 r2 = true <-> hash r1 = hash r2.
+Proof.
+  intros r1 r2.
+  destruct (eq_lemma r1 r2) as (_ & E & _). destruct (hash_lemma r1 r2) as (_ & H).
+  rewrite E, H. reflexivity.
+Qed.
